@@ -378,13 +378,112 @@ def _colr_to_svg_mismatch(glyphs, result):
     return bad
 
 
+def _gen_colr1_shared_paints(rng):
+    """as _gen_colr1, and often two colour glyphs paint an identical shape with an
+    identical gradient (every glyph becomes its own SVG document and must define it)"""
+    a = _gen_colr1(rng)
+    glyphs = a["glyphs"]
+    if rng.random() < 0.6:
+        vb = glyphs[0].viewbox
+        pts = e2e._poly(rng, vb)
+        fill = None
+        while fill is None or isinstance(fill, e2e.Solid):
+            fill = e2e._fill(rng, pts, True)
+        donor = e2e.Shape(pts, fill, rng.choice([1.0, 0.5]))
+        glyphs[0].items.append(donor)
+        extra = e2e.GlyphSpec(vb, [], (0xE100,))
+        if rng.random() < 0.5:
+            # a different gradient first, so that a stale id would resolve to the wrong one
+            p2 = e2e._poly(rng, vb)
+            f2 = None
+            while f2 is None or isinstance(f2, e2e.Solid):
+                f2 = e2e._fill(rng, p2, True)
+            extra.items.append(e2e.Shape(p2, f2, 1.0))
+        extra.items.append(e2e.Shape(list(pts), fill, donor.opacity))
+        glyphs.append(extra)
+        if rng.random() < 0.5:
+            glyphs.append(e2e.GlyphSpec(vb, [e2e.Shape(list(pts), fill, donor.opacity)], (0xE101,)))
+    return a
+
+
 @contract("nanoemoji.colr_to_svg.colr_to_svg", props=["C13"])
 class e2e_colr_to_svg:
     bounded_only = True
-    gen = _gen_colr1
+    gen = _gen_colr1_shared_paints
     native_call = _build
     n_quick = 30
     n_thorough = 400
     ensures = {
         "svg-renders-what-the-paint-graph-renders": lambda glyphs, result: _colr_to_svg_mismatch(glyphs, result) == [],
+    }
+
+
+# ---------------------------------------------------------------------------- palette (C15)
+
+
+def _gen_palette(rng):
+    fmt = rng.choice(["glyf_colr_1", "glyf_colr_0"])
+    glyphs = e2e.gen_glyphset(rng, gradients=False, groups=False, reuse=False)
+    used = {}
+    for g in glyphs:
+        for sh in e2e.all_shapes(g):
+            f = sh.fill
+            if rng.random() < 0.5:
+                f.alpha = 1.0
+                key = f.rgb
+                if key not in used:
+                    free = [i for i in range(8) if i not in used.values()]
+                    if not free:
+                        continue
+                    used[key] = rng.choice(free)
+                f.index = used[key]
+    return {"glyphs": glyphs, "overrides": dict(color_format=fmt, output_file="out.ttf")}
+
+
+def _palette_problems(glyphs, result):
+    font = result["font"]
+    pal = font["CPAL"].palettes[0]
+    v1 = font["COLR"].version == 1
+    bad = []
+    declared = {}
+    seen = set()
+    for g in glyphs:
+        for sh in e2e.all_shapes(g):
+            f = sh.fill
+            a = 1.0 if v1 else f.alpha * sh.opacity
+            seen.add((f.rgb, round(a * 255)))
+            if f.index is not None:
+                declared[f.index] = (f.rgb, round(a * 255))
+    if len(pal) == 0:
+        bad.append("empty palette")
+    for idx, (rgb, a255) in declared.items():
+        if idx >= len(pal):
+            bad.append(("declared index beyond the palette", idx))
+            continue
+        c = pal[idx]
+        if (c.red, c.green, c.blue) != rgb or abs(c.alpha - a255) > 1:
+            bad.append(("declared index holds another colour", idx, (c.red, c.green, c.blue, c.alpha), rgb, a255))
+    have = {((c.red, c.green, c.blue), c.alpha) for c in pal}
+    for rgb, a255 in seen:
+        if not any(h[0] == rgb and abs(h[1] - a255) <= 1 for h in have):
+            bad.append(("colour missing from the palette", rgb, a255))
+    if v1 and any(c.alpha != 255 for c in pal):
+        bad.append("COLRv1 palette entry that is not opaque")
+    for i, c in enumerate(pal):
+        if i not in declared and not any(h == ((c.red, c.green, c.blue), c.alpha) for h in {(s_[0], s_[1]) for s_ in seen}) and (c.red, c.green, c.blue, c.alpha) != (0, 0, 0, 255):
+            if not any(s_[0] == (c.red, c.green, c.blue) and abs(s_[1] - c.alpha) <= 1 for s_ in seen):
+                bad.append(("gap that is not black", i, (c.red, c.green, c.blue, c.alpha)))
+    return bad
+
+
+@contract("nanoemoji.write_font._generate_color_font", props=["C15"])
+class e2e_palette:
+    bounded_only = True
+    gen = _gen_palette
+    native_call = _build
+    n_quick = 30
+    n_thorough = 400
+    ensures = {
+        "palette-honours-indices-and-holds-every-colour": lambda glyphs, result: _palette_problems(glyphs, result) == [],
+        "same-picture-at-sample-points": lambda glyphs, result: _picture_mismatches(glyphs, result, _colr_eval) == [],
     }
